@@ -130,6 +130,10 @@ class Typer:
                 uid = d.find("UID").text
                 env2[uid] = ("thunk", uid, env2)
             return self.infer(n.find("body")[0], env2)
+        if tag == "AtNode":
+            # `@` inside [f EXCEPT !path = e]: the value at that path before the update
+            if env.get("@") is not None: return env["@"]
+            raise Undecided("@ outside EXCEPT at %s" % self.m.loc(n))
         if tag != "OpApplNode":
             raise Undecided("node %s at %s" % (tag, self.m.loc(n)))
         kind, uid, name = self.m.opname(n)
@@ -273,7 +277,8 @@ class Typer:
                         t = dict(t[1])[fld]
                     else:
                         raise Undecided("EXCEPT path through %s at %s" % (tstr(t), m.loc(p)))
-                vt = self.infer(val, env)
+                env_at = dict(env); env_at["@"] = t
+                vt = self.infer(val, env_at)
                 if not subtype(vt, t):
                     raise TypeErr("EXCEPT assigns %s where %s is declared at %s" % (tstr(vt), tstr(t), m.loc(p)))
             return f
@@ -434,8 +439,10 @@ def flatx(m, n, sub=None, depth=0):
         args = m.operands(n)
         if kind == "FormalParamNodeRef" and uid in sub and not args:
             return sub[uid]
+        if nm in ("M", "F", "N") and not args:
+            return nm     # the quorum constants stay symbolic (their definitions are checked separately)
         d = local_def(m, kind, uid)
-        if d is not None and depth < 4 and not contains_prime(m, d.find("body")[0]):
+        if d is not None and depth < 6 and not contains_prime(m, d.find("body")[0]):
             ps = def_params(d)
             if len(ps) == len(args):
                 s2 = dict(sub)
@@ -485,6 +492,10 @@ def ev3(m, n, hyp, sub=None, depth=0):
                 r = a in elems
                 return r if nm == "\\in" else (not r)
         return None
+    if nm in ("<", ">", "\\leq", "\\geq", "=<", ">=", "<=") and len(args) == 2:
+        a, b = evint(m, args[0], hyp, sub, depth), evint(m, args[1], hyp, sub, depth)
+        if a is None or b is None: return None
+        return {"<": a < b, ">": a > b, "\\leq": a <= b, "=<": a <= b, "<=": a <= b, "\\geq": a >= b, ">=": a >= b}[nm]
     d = local_def(m, kind, uid)
     if d is not None and depth < 4 and not contains_prime(m, d.find("body")[0]):
         ps = def_params(d)
@@ -492,6 +503,42 @@ def ev3(m, n, hyp, sub=None, depth=0):
             s2 = dict(sub)
             for pu, a in zip(ps, args): s2[pu] = flatx(m, a, sub, depth)
             return ev3(m, d.find("body")[0], hyp, s2, depth + 1)
+    return None
+
+def evint(m, n, hyp, sub=None, depth=0):
+    """value of an integer expression built from numerals, + and -, CASE tables over string tests and module-local
+    operators, under the same hypotheses as ev3; None when unknown (e.g. an ordinal table `Stage(type)`)"""
+    sub = sub or {}
+    if n.tag == "NumeralNode": return int(n.find("IntValue").text)
+    if n.tag == "LetInNode": return evint(m, n.find("body")[0], hyp, sub, depth)
+    if n.tag != "OpApplNode": return None
+    kind, uid, nm = m.opname(n)
+    args = m.operands(n)
+    if nm in ("+", "-") and len(args) == 2:
+        a, b = evint(m, args[0], hyp, sub, depth), evint(m, args[1], hyp, sub, depth)
+        if a is None or b is None: return None
+        return a + b if nm == "+" else a - b
+    if nm == "$Case":
+        for arm in args:
+            c, v = m.operands(arm)
+            if c.tag == "StringNode" and c.find("StringValue").text == "$Other":
+                return evint(m, v, hyp, sub, depth)
+            t = ev3(m, c, hyp, sub, depth)
+            if t is True: return evint(m, v, hyp, sub, depth)
+            if t is None: return None
+        return None
+    if nm == "$IfThenElse" and len(args) == 3:
+        c = ev3(m, args[0], hyp, sub, depth)
+        if c is True: return evint(m, args[1], hyp, sub, depth)
+        if c is False: return evint(m, args[2], hyp, sub, depth)
+        return None
+    d = local_def(m, kind, uid)
+    if d is not None and depth < 4 and nm not in ("M", "F", "N"):
+        ps = def_params(d)
+        if len(ps) == len(args):
+            s2 = dict(sub)
+            for pu, a in zip(ps, args): s2[pu] = flatx(m, a, sub, depth)
+            return evint(m, d.find("body")[0], hyp, s2, depth + 1)
     return None
 
 def subapps(m, n, sub=None, depth=0):
@@ -511,6 +558,127 @@ def subapps(m, n, sub=None, depth=0):
             s2 = dict(sub)
             for pu, a in zip(ps, args): s2[pu] = flatx(m, a, sub, depth)
             yield from subapps(m, d.find("body")[0], s2, depth + 1)
+
+
+# ---------------- guards as boolean structure (operator-expanding, polarity-normalised) ----------------
+FLIP = {"<": "\\geq", "\\geq": "<", ">=": "<", ">": "\\leq", "\\leq": ">", "=<": ">", "<=": ">", "=": "/=", "/=": "=", "#": "=", "\\in": "\\notin", "\\notin": "\\in"}
+CANON = {">=": "\\geq", "=<": "\\leq", "<=": "\\leq", "#": "/="}
+
+def enum_strings(m, n, sub=None, depth=0):
+    """the string literals of a set expression that is (or is defined as) an enumeration of strings, else None"""
+    if n.tag != "OpApplNode": return None
+    kind, uid, nm = m.opname(n)
+    args = m.operands(n)
+    if nm == "$SetEnumerate":
+        if all(a.tag == "StringNode" for a in args): return [a.find("StringValue").text for a in args]
+        return None
+    d = local_def(m, kind, uid)
+    if d is not None and not args and depth < 4: return enum_strings(m, d.find("body")[0], sub, depth + 1)
+    return None
+
+def worth_expanding(m, d):
+    """a module-local operator is looked into when a quorum or a bounded quantifier hides in it"""
+    return any(m.opname(a)[2] in ("Cardinality", "$BoundedExists") for a in d.find("body").iter("OpApplNode"))
+
+def nnf(m, n, pol=True, sub=None, depth=0):
+    """('and'|'or', [children]) | ('atom', op, left text, right text, whole text, positive?)"""
+    sub = sub or {}
+    if n.tag == "LetInNode": return nnf(m, n.find("body")[0], pol, sub, depth)
+    def atom():
+        return ("atom", None, None, None, flatx(m, n, sub, depth), pol)
+    if n.tag != "OpApplNode": return atom()
+    kind, uid, nm = m.opname(n)
+    args = m.operands(n)
+    if nm in ("$ConjList", "\\land"):
+        return ("and" if pol else "or", [nnf(m, a, pol, sub, depth) for a in args])
+    if nm in ("$DisjList", "\\lor"):
+        return ("or" if pol else "and", [nnf(m, a, pol, sub, depth) for a in args])
+    if nm == "\\lnot" and len(args) == 1:
+        return nnf(m, args[0], not pol, sub, depth)
+    if nm == "=>" and len(args) == 2:
+        return ("or" if pol else "and", [nnf(m, args[0], not pol, sub, depth), nnf(m, args[1], pol, sub, depth)])
+    if nm == "$IfThenElse" and len(args) == 3:
+        a = ("and", [nnf(m, args[0], True, sub, depth), nnf(m, args[1], pol, sub, depth)])
+        b = ("and", [nnf(m, args[0], False, sub, depth), nnf(m, args[2], pol, sub, depth)])
+        return ("or", [a, b]) if pol else ("and", [("or", [nnf(m, args[0], False, sub, depth), nnf(m, args[1], pol, sub, depth)]), ("or", [nnf(m, args[0], True, sub, depth), nnf(m, args[2], pol, sub, depth)])])
+    if nm == "$BoundedExists" and pol:
+        bs = m.bounds(n)
+        if len(bs) == 1 and len(bs[0][0]) == 1 and bs[0][1] is not None:
+            lits = enum_strings(m, bs[0][1], sub)
+            if lits is not None:
+                out = []
+                for l in lits:
+                    s2 = dict(sub); s2[bs[0][0][0]] = '"' + l + '"'
+                    out.append(nnf(m, args[0], True, s2, depth))
+                return ("or", out)
+        return nnf(m, args[0], True, sub, depth)    # the witness is left free: the structure below is what matters
+    if nm in FLIP and len(args) == 2:
+        op = nm if pol else FLIP[nm]
+        op = CANON.get(op, op)
+        l, r = flatx(m, args[0], sub, depth), flatx(m, args[1], sub, depth)
+        return ("atom", op, l, r, "%s(%s,%s)" % (op, l, r), True)
+    d = local_def(m, kind, uid)
+    if d is not None and depth < 6 and not contains_prime(m, d.find("body")[0]) and worth_expanding(m, d):
+        ps = def_params(d)
+        if len(ps) == len(args):
+            s2 = dict(sub)
+            for pu, a in zip(ps, args): s2[pu] = flatx(m, a, sub, depth)
+            return nnf(m, d.find("body")[0], pol, s2, depth + 1)
+    return atom()
+
+def dnf(t, cap=4000):
+    """list of clauses (lists of atoms); raises Undecided when it explodes"""
+    if t[0] == "atom": return [[t]]
+    if t[0] == "or":
+        out = []
+        for c in t[1]: out += dnf(c, cap)
+        if len(out) > cap: raise Undecided("guard has too many alternatives")
+        return out
+    out = [[]]
+    for c in t[1]:
+        cs = dnf(c, cap)
+        out = [a + b for a in out for b in cs]
+        if len(out) > cap: raise Undecided("guard has too many alternatives")
+    return out
+
+def affine_text(t):
+    """(c, kM, kF) for a threshold written with M, F, numerals, + and - (prefix text as produced by flat), else None"""
+    t = t.strip()
+    if t.isdigit(): return (int(t), 0, 0)
+    if t == "M": return (0, 1, 0)
+    if t == "F": return (0, 0, 1)
+    for op, sgn in (("+(", 1), ("-(", -1)):
+        if t.startswith(op) and t.endswith(")"):
+            inner = t[len(op):-1]
+            lvl = 0
+            for i, ch in enumerate(inner):
+                if ch == "(": lvl += 1
+                elif ch == ")": lvl -= 1
+                elif ch == "," and lvl == 0:
+                    a, b = affine_text(inner[:i]), affine_text(inner[i + 1:])
+                    if a is None or b is None: return None
+                    return (a[0] + sgn * b[0], a[1] + sgn * b[1], a[2] + sgn * b[2])
+    return None
+
+def quorum_atom(at, want):
+    """is the atom `Cardinality(S) >= M - k` (k = 0..2, own contribution) with S mentioning a message kind accepted by
+    `want` (a predicate on the set text)? returns k or None"""
+    if at[0] != "atom" or at[1] is None: return None
+    op, l, r = at[1], at[2], at[3]
+    if op == "\\leq" and r.startswith("Cardinality("): op, l, r = "\\geq", r, l
+    if op == ">" and l.startswith("Cardinality("):
+        a = affine_text(r)
+        if a is None: return None
+        op, thr = "\\geq", (a[0] + 1, a[1], a[2])
+    elif op == "\\geq" and l.startswith("Cardinality("):
+        thr = affine_text(r)
+        if thr is None: return None
+    else:
+        return None
+    if not want(l): return None
+    if thr[1] != 1 or thr[2] != 0 or not (-2 <= thr[0] <= 0): return None
+    if "msgs" in l and "pool" not in l and thr[0] != 0: return None   # counted over the global message set: nothing is the node's own contribution
+    return -thr[0]
 
 def lin_over_M(m, n):
     """affine form c + k*M of a threshold expression, or None"""
@@ -571,7 +739,19 @@ def walk(ctx, n, env, guards, action, init):
             try: env2[p] = ty.infer(a, env)
             except (Undecided, TypeErr) as e:
                 res.fail("TLA-TYPE", spec + "/" + name + "/arg", m.loc(n), str(e)); return
-        return walk(ctx, d.find("body")[0], env2, guards, name, init)
+        # what the action's parameters stand for (a parametrised action instantiated with a literal: its guards are read
+        # with the literal in place)
+        saved = ctx.get("psub", {})
+        ps2 = dict(saved)
+        for p, a in zip(params, args):
+            t = flatx(m, a, saved)
+            if t != m.ents[p].find("uniquename").text if p in m.ents and m.ents[p].find("uniquename") is not None else True:
+                ps2[p] = t
+        ctx["psub"] = ps2
+        try:
+            return walk(ctx, d.find("body")[0], env2, guards, name, init)
+        finally:
+            ctx["psub"] = saved
     if name == "UNCHANGED":
         return
     if name in ("=", "\\in") and len(args) == 2:
@@ -674,68 +854,71 @@ def guard_rules(ctx, rhs, env, guards, action, init, where):
                     else:
                         res.fail("TLA-FAULT", spec + "/" + action + "/" + lit, where, "state \"%s\" can be assigned without the guard %s on the same node" % (lit, want))
             if init: continue
-            # quorum guards on accepting / committing transitions of non-faulty nodes
+            # quorum guards on accepting / committing transitions of non-faulty nodes: in every alternative of the guard
+            # in force (disjunctions, IF branches, helper operators and bounded quantifiers over literal sets expanded)
             for lit, kinds in (("blockAccepted", ("Commit", "CommitAck")), ("commitSent", ("PrepareResponse", "PrepareRequest")), ("commitAckSent", ("Commit",))):
                 if lit in lits and not faulty:
-                    if lit == "blockAccepted" and any(t.startswith("=($RcdSelect($FcnApply(rmState,") and t.endswith('"type"),"blockAccepted")') and pol for t, pol in gtxt):
-                        res.ok("TLA-GUARD", "%s %s: adopts the block of a node that already accepted it" % (spec, action))
-                        continue
-                    found = None
-                    for g, pol in gs:
-                        if g.tag != "OpApplNode": continue
-                        nm = m.opname(g)[2]
-                        a = m.operands(g)
-                        if len(a) != 2 or a[0].tag != "OpApplNode" or m.opname(a[0])[2] != "Cardinality": continue
-                        body = flat(m, a[0])
-                        if not any('"%s"' % k in body for k in kinds): continue
-                        lin = lin_over_M(m, a[1])
-                        if lin is None: continue
-                        ge = (nm in ("\\geq", ">=") and pol) or (nm == "<" and not pol)
-                        if ge and lin[1] == 1 and -2 <= lin[0] <= 0:
-                            overglobal = "msgs" in body and "pool" not in body
-                            if overglobal and lin[0] != 0: continue
-                            found = (body[:60], lin)
-                    if found: res.ok("TLA-GUARD", "%s %s: \"%s\" behind a %s quorum of M%+d" % (spec, action, lit, "/".join(kinds), found[1][0]))
-                    else: res.fail("TLA-GUARD", spec + "/" + action + "/quorum:" + lit, where, "transition to \"%s\" of a non-faulty node is not guarded by Cardinality({... %s ...}) >= M (minus at most its own contribution)" % (lit, "/".join(kinds)))
+                    try:
+                        clauses = dnf(("and", [nnf(m, g, pol, ctx.get("psub")) for g, pol in guards]))
+                    except Undecided as e:
+                        res.fail("TLA-GUARD", spec + "/" + action + "/quorum:" + lit, where, "UNDECIDED: %s" % e); continue
+                    # the messages counted are those of the node's current view (a quorum assembled from several views is
+                    # not a quorum for any block)
+                    want = lambda body: any('"%s"' % k in body for k in kinds) and '"view")' in body and "rmState" in body
+                    bad, ks = None, set()
+                    for cl in clauses:
+                        if lit == "blockAccepted" and any(a[5] and a[4].startswith("=($RcdSelect($FcnApply(rmState,") and a[4].endswith('"type"),"blockAccepted")') for a in cl):
+                            ks.add("adopted"); continue
+                        k = [quorum_atom(a, want) for a in cl]
+                        k = [x for x in k if x is not None]
+                        if k: ks.add(min(k))
+                        else: bad = cl
+                    if bad is None and clauses:
+                        res.ok("TLA-GUARD", "%s %s: \"%s\" behind a %s quorum of M in each of %d alternatives (own contribution %s)" % (spec, action, lit, "/".join(kinds), len(clauses), sorted(map(str, ks))))
+                    else:
+                        res.fail("TLA-GUARD", spec + "/" + action + "/quorum:" + lit, where, "transition to \"%s\" of a non-faulty node is not guarded by Cardinality({... %s ...}) >= M (minus at most its own contribution) in the alternative {%s}" % (lit, "/".join(kinds), " ; ".join(a[4][:70] for a in (bad or []))))
         elif what == "view" and not init and not faulty:
             vtxt = flat(m, lits)
             if "GetNewView" not in vtxt and "targetView" not in vtxt and "+" not in vtxt:
                 continue   # adopting another node's view together with its accepted block
-            req = LOCKS.get((spec, action))
-            if req is None:
-                res.fail("TLA-GUARD", spec + "/" + action + "/untabled-view-change", where, "a non-faulty action increases the view but the guard table has no entry for it (new view-changing action: add its lock/quorum requirement)")
-                continue
-            # "lock:<state>" entries are decided by evaluation: with the node in that state the action's guard must be
-            # false (whatever helper operators the guard is written with); other entries are patterns of the guard text
+            # a non-faulty node increases its view. Whatever the action is called and however its guard is written
+            # (helper operators, IF, bounded quantifiers over literal sets are expanded), in EVERY alternative of the guard
+            # the step rests on M change-view messages of some stage (minus the node's own) or on the leader's
+            # DoChangeView message; and in the states the spec locks (per spec, below) the guard evaluates to false.
+            try:
+                clauses = dnf(("and", [nnf(m, g, pol, ctx.get("psub")) for g, pol in guards]))
+            except Undecided as e:
+                res.fail("TLA-GUARD", spec + "/" + action + "/view-guard", where, "UNDECIDED: %s" % e); continue
+            wantcv = lambda body: '"ChangeView' in body
+            missing = []
+            for cl in clauses:
+                if any(quorum_atom(a, wantcv) in (0, 1) for a in cl): continue
+                if any(a[5] and '"DoChangeView' in a[4] for a in cl): continue
+                missing.append("no M-quorum of ChangeView messages (nor a leader's DoChangeView) in the alternative {%s}" % " ; ".join(a[4][:60] for a in cl))
+                break
             it = flat(m, idx) if idx is not None else "r"
             hypkey = '$RcdSelect($FcnApply(rmState,%s),"type")' % it
             conj = [g for g, pol in guards if pol]
-            def locked(state):
-                return any(ev3(m, g, {hypkey: state}) is False for g in conj)
-            allgx = " && ".join(("" if pol else "NOT ") + flatx(m, g) for g, pol in guards)
-            missing = []
-            for pat, why in req:
-                if pat.startswith("lock:"):
-                    if not locked(pat[5:]): missing.append(why)
-                elif pat not in allg and pat not in allgx:
-                    missing.append(why)
-            if not missing: res.ok("TLA-GUARD", "%s %s: view increase carries %s" % (spec, action, "; ".join(w for _, w in req)))
+            for state in SPEC_LOCKS.get(spec, []):
+                if not any(ev3(m, g, {hypkey: state}) is False for g in conj):
+                    missing.append("lock: the action is enabled for a node in state %s" % state)
+            if spec in OWN_COMMIT_LOCK:
+                def nocommit(a):
+                    return a[1] in ("\\leq", "=", "<") and a[2].startswith("Cardinality(") and '"Commit"' in a[2] and a[3] in ("0", "1") and not (a[1] == "<" and a[3] == "0") and not (a[1] == "\\leq" and a[3] == "1") and not (a[1] == "=" and a[3] == "1")
+                if not any(nocommit(a) for cl in clauses for a in cl):
+                    missing.append("commit lock: no alternative requires that the node has not sent its own Commit")
+            if not missing: res.ok("TLA-GUARD", "%s %s: view increase rests on a ChangeView quorum / the leader's message in each of %d alternatives; locks %s" % (spec, action, len(clauses), SPEC_LOCKS.get(spec, [])))
             else: res.fail("TLA-GUARD", spec + "/" + action + "/view-guard", where, "view-increasing action lost its guard: " + "; ".join(missing))
 
-# guards that today's specs put on non-faulty view-increasing actions (confirmed by reading each spec; the two
-# dBFT 2.1 drafts deliberately have no commit lock but a bound on commits / explicit CV stages instead)
-CS = "lock:commitSent"
-LOCKS = {
-    ("dbft/dbft.tla", "RMReceiveChangeView"): [(CS, "commit lock type /= commitSent"), ('"ChangeView"', "ChangeView quorum"), ("\\geq(Cardinality(", ">= M quorum")],
-    ("dbft_antiMEV/dbft.tla", "RMReceiveChangeView"): [(CS, "commit lock type /= commitSent"), ("lock:commitAckSent", "lock type /= commitAckSent"), ('"ChangeView"', "ChangeView quorum")],
-    ("dbftMultipool/dbftMultipool.tla", "RMSendChangeView"): [("\\lnot(CommitSent(r))", "backup commit lock ~CommitSent(r)"), ('"ChangeView"', "ChangeView quorum")],
-    ("dbftMultipool/dbftMultipool.tla", "RMOnChangeView"): [("\\lnot(CommitSent(r))", "commit lock ~CommitSent(r)"), ('"ChangeView"', "ChangeView quorum")],
-    ("dbft2.1_threeStagedCV/dbftCV3.tla", "RMReceiveChangeView"): [('"ChangeView1"', "CV1 quorum"), ('"ChangeView2"', "CV2 quorum"), ('"ChangeView3"', "CV3 quorum"), ("lock:blockAccepted", "not after acceptance")],
-    ("dbft2.1_centralizedCV/dbftCentralizedCV.tla", "RMSendDoCV1ByLeader"): [('"ChangeView1"', "CV1 quorum"), ("\\geq(Cardinality(", ">= M quorum")],
-    ("dbft2.1_centralizedCV/dbftCentralizedCV.tla", "RMSendDoCV2ByLeader"): [('"ChangeView2"', "CV2 quorum"), ("\\geq(Cardinality(", ">= M quorum")],
-    ("dbft2.1_centralizedCV/dbftCentralizedCV.tla", "RMReceiveDoCV1FromLeader"): [('"DoChangeView1"', "leader's DoChangeView1")],
-    ("dbft2.1_centralizedCV/dbftCentralizedCV.tla", "RMReceiveDoCV2FromLeader"): [('"DoChangeView2"', "leader's DoChangeView2")],
+# states in which a node must not change its view, per spec (confirmed by reading each spec: the two dBFT 2.1 drafts
+# deliberately have no commit lock — stage III "gives the ability to escape from the commit phase" — the multipool model
+# expresses its lock through the node's own Commit message in its pool)
+SPEC_LOCKS = {
+    "dbft/dbft.tla": ["commitSent"],
+    "dbft_antiMEV/dbft.tla": ["commitSent", "commitAckSent"],
+    "dbft2.1_threeStagedCV/dbftCV3.tla": ["blockAccepted"],
 }
+OWN_COMMIT_LOCK = {"dbftMultipool/dbftMultipool.tla"}
 
 def main():
     ap = argparse.ArgumentParser()
